@@ -39,6 +39,13 @@ def _cluster_cfg(cpu, bw, unit, n=1):
 
 def run_unit(c):
     """-> dict(ast, aft, released, expected) for one unit case."""
+    if c.get("before"):
+        # an earlier task with the same demands on a machine of the same
+        # name but another speed/unit, in the same process: what the first
+        # computed must not reach the second
+        for b in c["before"]:
+            run_unit(dict({k: v for k, v in c.items() if k != "before"},
+                          **b))
     f = world.unit_factor(c["unit"])
     path = _cluster_cfg(c["cpu"], c["bw"], c["unit"])
     probe = Probe()
@@ -125,6 +132,21 @@ def domain(tier):
             yield unit_case(comp, data, cpu, bw, d, unit)
 
 
+def history_domain(tier):
+    """Two-step histories: the same (comp, data, delay) first on a machine of
+    the same id with another speed, bandwidth or timestep unit."""
+    base = [c for i, c in enumerate(domain(tier))
+            if c["delay"] == 0 and common.keep(i, 2 if tier == "thorough"
+                                               else 6)]
+    for c in base:
+        alts = [{"cpu": 1 if c["cpu"] > 1 else 4},
+                {"bw": 1 if c["bw"] > 1 else 4},
+                {"cpu": c["cpu"] + 3, "bw": c["bw"] + 3},
+                {"unit": "seconds" if c["unit"] != "seconds" else 2}]
+        for b in alts:
+            yield dict(c, before=[b])
+
+
 def monitors_for(case):
     return [monitors.Runtime()]
 
@@ -133,7 +155,8 @@ def run(rep, tier, seed):
     rep.rule = RULE
     rep.assumptions = ["delay model output injected through the "
                        "generate_delay seam (ScriptedDelay)"]
-    items = common.rotate(list(domain(tier)), seed)
+    items = common.rotate(list(domain(tier)) + list(history_domain(tier)),
+                          seed)
 
     def work(i, c):
         r = run_unit(c)
@@ -146,7 +169,12 @@ def run(rep, tier, seed):
         sc["executions"] += 1
         rep.evaluations += 1
         rep.transitions += r.get("events", 0)
-        if "error" not in r:
+        if c.get("before"):
+            sc = rep.scope("E3-task-unit/after-another-machine-of-same-id")
+            sc["cases"] += 1
+            sc["executions"] += 2
+            sc = rep.scope("E3-task-unit")
+        elif "error" not in r:
             table[(c["unit"], c["delay"], c["cpu"], c["bw"], c["comp"],
                    c["data"])] = r["aft"] - r["ast"]
             rep.states.add(hash((c["unit"], c["delay"], c["cpu"], c["bw"],
